@@ -245,12 +245,21 @@ func (e *engine) shrink(si int, s string) (string, string) {
 	}
 	for round := 0; round < 200; round++ {
 		var cands []string
-		for w := len(s) / 2; w >= 1; w /= 2 {
+		// long witnesses (length itself matters, e.g. buffer-size effects) are
+		// only reduced coarsely: the candidate set must stay small
+		minW := 1
+		if len(s) > 256 {
+			minW = len(s) / 16
+		}
+		for w := len(s) / 2; w >= minW; w /= 2 {
 			for i := 0; i+w <= len(s); i += w {
 				cands = append(cands, s[:i]+s[i+w:])
 			}
 		}
 		c, m, ok := fails(cands)
+		if !ok && len(s) > 256 {
+			break
+		}
 		if !ok {
 			cands = cands[:0]
 			for i := 0; i < len(s); i++ {
